@@ -37,9 +37,17 @@ TECHNIQUE = "Lean 4 proof (case analysis of the guard chain; positivity of guard
 
 def boundary_tle(rng):
     """TLEs near the thresholds of the decision table."""
-    k = rng.randrange(10)
+    k = rng.randrange(12)
     ov = {}
-    if k >= 8:      # hugging a threshold (220/156/98 km perigee, 225 min period) to within millimetres ... hundreds of metres
+    if k == 10:     # near-circular, low inclination, drag: the drag-modified eccentricity runs below -1e-3 before a < 1
+        ov = {"mmotion": "%11.8f" % rng.uniform(15.6, 16.15), "ecc": "%07d" % rng.randrange(100, 9000),
+              "incl": "%8.4f" % rng.choice([rng.uniform(0.5, 40), rng.uniform(140, 179.5)]),
+              "bstar": " " + "%05d" % rng.randrange(10000, 99999) + "-" + rng.choice("233")}
+    elif k == 11:   # eccentric with strong drag: the radius falls below one earth radius near perigee before a < 1
+        ov = {"mmotion": "%11.8f" % rng.uniform(14.0, 15.4), "ecc": "%07d" % rng.randrange(200000, 900000),
+              "incl": "%8.4f" % rng.uniform(5, 175),
+              "bstar": " " + "%05d" % rng.randrange(10000, 99999) + "-" + rng.choice("12")}
+    elif k >= 8:      # hugging a threshold (220/156/98 km perigee, 225 min period) to within millimetres ... hundreds of metres
         ov, _ = tlegen.threshold_fields(rng)
         if rng.random() < 0.5:
             ov["bstar"] = " 00000-0"
@@ -71,7 +79,7 @@ def boundary_tle(rng):
         ov["ecc"] = "%07d" % rng.randrange(0, 100000)
     else:
         ov["ecc"] = "%07d" % rng.randrange(0, 1000)     # e <= 1e-4 branch
-    regime = "near" if k in (4, 6, 7) else "any"
+    regime = "near" if k in (4, 6, 7, 10, 11) else "any"
     f, l1, l2 = tlegen.random_tle(rng, regime, overrides=ov)
     return l1, l2
 
@@ -89,7 +97,8 @@ def gen_cases(ctx, n):
 
 def gen_ts(ctx):
     r = ctx.rng
-    return [0.0, r.randrange(-86400 * 10 ** 6, 86400 * 10 ** 6) / 60e6, r.randrange(-60 * 86400 * 10 ** 6, 60 * 86400 * 10 ** 6) / 60e6]
+    return [0.0, r.randrange(-86400 * 10 ** 6, 86400 * 10 ** 6) / 60e6, r.randrange(-60 * 86400 * 10 ** 6, 60 * 86400 * 10 ** 6) / 60e6,
+            r.randrange(0, 25 * 86400 * 10 ** 6) / 60e6, r.randrange(0, 60 * 86400 * 10 ** 6) / 60e6]
 
 
 def correspond(ctx):
@@ -224,9 +233,19 @@ def oracle(ctx):
             a_, e0_, elsq_, rk_ = [lib.h2f(x) for x in toks[8:12]]
             decayed = (not all(math.isfinite(x) for x in (a_, e0_, elsq_, rk_))) or a_ < 1 + 1e-9 or rk_ < 1 + 1e-9 or elsq_ >= 1 - 1e-9 or e0_ < -1e-3 + 1e-12
             clearly_fine = all(math.isfinite(x) for x in (a_, e0_, elsq_, rk_)) and a_ > 1 + 1e-6 and rk_ > 1 + 1e-6 and elsq_ < 1 - 1e-6 and e0_ > -1e-3 + 1e-9
+            # clearly decayed by the published model's own state (margins far above rounding): must be refused
+            clearly_decayed = all(math.isfinite(x) for x in (a_, e0_, elsq_, rk_)) and (
+                a_ < 1 - 1e-6 or e0_ < -1e-3 - 1e-7 or elsq_ >= 1 + 1e-6 or (rk_ < 1 - 1e-6 and a_ >= 1 and e0_ >= -1e-3 and elsq_ < 1))
+            if all(math.isfinite(x) for x in (a_, e0_, elsq_, rk_)):
+                ctx.bump("spec_state", "a<1" if a_ < 1 else "e<-1e-3" if e0_ < -1e-3 else "eL2>=1" if elsq_ >= 1 else "rk<1" if rk_ < 1 else "alive")
             if ans:
                 if not (np.all(np.isfinite(pos)) and np.all(np.isfinite(vel))):
                     ctx.violation("nonfinite_answer", c2, [list(map(float, pos)), list(map(float, vel))], "finite position and velocity", site="Orbital.get_position")
+                elif clearly_decayed:
+                    ctx.violation("decayed_answered", c2, [list(map(float, pos)), list(map(float, vel))],
+                                  "an exception: the modelled orbit has decayed (a=%.6f e=%.6f e_L^2=%.6f r_k=%.6f earth radii)" % (a_, e0_, elsq_, rk_),
+                                  site="_Keplerians.calculate")
+                    ctx.bump("oracle_class", "answered-though-decayed")
                 ctx.bump("oracle_class", "answered")
             else:
                 if isinstance(ex, NotImplementedError):
@@ -235,6 +254,8 @@ def oracle(ctx):
                     ctx.violation("exception_without_decay", c2, repr(ex), "finite answer: a=%.6f e0=%.6f elsq=%.6f rk=%.6f (not decayed)" % (a_, e0_, elsq_, rk_), site="_Keplerians.calculate")
                 ctx.bump("oracle_class", "decay-exception" if decayed else "exception")
     oracle_sequences(ctx)
+    if drv:
+        oracle_radius_decay(ctx, drv)
 
 
 def _outcome(o, t_min):
@@ -271,6 +292,54 @@ def seq_outcomes(ctx, l1, l2, mins_seq):
             bad += 1
             break
     return "violated" if bad else "".join(kinds)
+
+
+def oracle_radius_decay(ctx, drv):
+    """Eccentric orbits under strong drag: shortly before the semi-major axis falls below one earth radius the modelled
+    RADIUS does so near perigee (a narrow set of times).  The published model's state is evaluated on a dense time grid to
+    find such instants; the implementation must refuse them (and the instants where e < -1e-3 likewise)."""
+    from pyorbital import orbital, tlefile
+    r = ctx.rng
+    found = {"rk<1": 0, "e<-1e-3": 0}
+    for _ in range(ctx.size(12, 200)):
+        fam = r.choice(["rk", "rk", "e"])
+        if fam == "rk":
+            ov = {"mmotion": "%11.8f" % r.uniform(14.0, 15.4), "ecc": "%07d" % r.randrange(200000, 900000),
+                  "incl": "%8.4f" % r.uniform(5, 175), "bstar": " " + "%05d" % r.randrange(10000, 99999) + "-" + r.choice("12")}
+        else:
+            ov = {"mmotion": "%11.8f" % r.uniform(15.6, 16.15), "ecc": "%07d" % r.randrange(100, 9000),
+                  "incl": "%8.4f" % r.choice([r.uniform(0.5, 40), r.uniform(140, 179.5)]),
+                  "bstar": " " + "%05d" % r.randrange(10000, 99999) + "-" + r.choice("233")}
+        _, l1, l2 = tlegen.random_tle(r, "near", overrides=ov)
+        try:
+            tle = tlefile.Tle("x", line1=l1, line2=l2)
+            o = orbital.Orbital("x", line1=l1, line2=l2)
+        except Exception:  # noqa
+            continue
+        grid = [k * 7.0 + r.uniform(0, 7) for k in range(0, 8000)]          # every ~7 min over ~39 days
+        out = drv.run(["str3 " + " ".join(lib.f2h(x) for x in sgp4io.tle_nums(tle)) + "".join(" " + lib.f2h(t) for t in grid)])[0]
+        steps = out.split(" | ")[1:]
+        picks = []
+        for t, st in zip(grid, steps):
+            toks = st.split()
+            a_, e0_, elsq_, rk_ = [lib.h2f(x) for x in toks[8:12]]
+            if not all(math.isfinite(x) for x in (a_, e0_, elsq_, rk_)):
+                continue
+            if a_ >= 1 + 1e-6 and e0_ >= -1e-3 + 1e-7 and elsq_ < 1 - 1e-6 and rk_ < 1 - 1e-6:
+                picks.append((t, "rk<1", (a_, e0_, elsq_, rk_)))
+            elif a_ >= 1 + 1e-6 and e0_ < -1e-3 - 1e-7:
+                picks.append((t, "e<-1e-3", (a_, e0_, elsq_, rk_)))
+        r.shuffle(picks)
+        for t, why, st in picks[:6]:
+            ctx.count("eval_oracle_decay_search")
+            found[why] += 1
+            got = _outcome(o, t)
+            if got[0] == "answered":
+                ctx.violation("decayed_answered", {"line1": l1, "line2": l2, "minutes": t}, got[1],
+                              "an exception: the modelled orbit has decayed (%s: a=%.6f e=%.6f e_L^2=%.6f r_k=%.6f earth radii)" % ((why,) + st),
+                              site="_Keplerians.calculate")
+    for k_, v_ in found.items():
+        ctx.bump("decay_search_found", k_, v_)
 
 
 def oracle_sequences(ctx):
